@@ -35,7 +35,8 @@ Inductive err :=
 | EAnticipated (c : scinfo) (viol : path) (val : Z) (by_ : Z)
 | ESubceeded (c : scinfo)
 | EDepleted (cc : option Z)
-| ESuperfluous (rest : list Z) (cc : option Z).
+| ESuperfluous (rest : list Z) (cc : option Z)
+| EEncMismatch (p : path) (expected found : bool).   (* response sessions contradict the expected encryption *)
 
 Inductive action := Rd (b : Z) | Ev (e : event) | Wn (w : err).
 
